@@ -154,11 +154,17 @@ class ModelFS:
         self.events = []  # [instant, action, fired]: effects of OTHER actors, applied when the clock reaches the instant
 
     def observe(self):
+        if getattr(self, '_firing', False):
+            return  # file-system calls made by an event itself (another actor's operation) are not observations
         self.clock += 1
-        for ev in self.events:
-            if not ev[2] and ev[0] <= self.clock:
-                ev[2] = True
-                ev[1]()
+        self._firing = True
+        try:
+            for ev in self.events:
+                if not ev[2] and ev[0] <= self.clock:
+                    ev[2] = True
+                    ev[1]()
+        finally:
+            self._firing = False
 
     def tick(self, what):
         self.step += 1
@@ -732,6 +738,12 @@ class ModelSession:
         self.rows = None
         self.snap = None
         self.dirty = False
+
+    def expire_all(self):
+        """SQLAlchemy: forget loaded ORM state -- the open read transaction (the pinned snapshot) stays"""
+
+    def rollback(self):
+        self.close()
 
 
 # ------------------------------------------------------------------ model hash / codec
